@@ -329,6 +329,19 @@ class Interp:
                 self.disc("stack-corruption-wrong-error", f"leaving #{k} with an open child raised {errors[0]!r}")
             if not victim.closed:
                 self.disc("closed-flag:post", "context left with an open child does not report closed")
+            # the block has been left: the context must refuse further use like any closed context
+            for what, call in (("add_resource", lambda: victim.add_resource(RA("late"), "late")),
+                               ("get_resource_nowait", lambda: victim.get_resource_nowait(RA, "late", optional=True)),
+                               ("add_teardown_callback", lambda: victim.add_teardown_callback(lambda: None))):
+                try:
+                    call()
+                except RuntimeError:
+                    continue
+                except Exception as exc:
+                    self.disc(f"forbidden-op-wrong-exception:post:{what}", f"{what} on a context left with an open child raised {short_exc(exc)}")
+                    continue
+                self.disc(f"forbidden-op-allowed:post:{what}", f"{what} on a context that was left (with an open child) succeeded; it must raise RuntimeError")
+                break
             # best-effort unwind of the rest
             for c in reversed(ctxs):
                 if c is not victim:
